@@ -5,6 +5,7 @@ import (
 	"errors"
 	"fmt"
 	"regexp"
+	"sort"
 	"strings"
 
 	"github.com/flosch/pongo2/v6"
@@ -87,6 +88,34 @@ func runC02(r *run) {
 				"{% if L %}{{ L }}{% endif %}", "{{ L_list.0 }}", "{% cycle L \"x\" as cyc %}{% cycle cyc %}{% cycle cyc %}", "{% for q in L_list %}{% cycle q L as cyc %}{% cycle cyc %}{% endfor %}",
 				"{{ L_list|join:L }}", "{{ L_list|join:\", \" }}", "{{ \"a,b\"|split:\",\"|join:L }}", "{% firstof nothing L %}", "{% with sep=L %}{{ L_list|join:sep }}{% endwith %}", "{{ L|stringformat:\"%v\" }}", "{{ L|stringformat:\"%s\" }}"} {
 				emit(caseT{"goleaf", []string{hx(strings.ReplaceAll(tpl, "L", leaf)), leaf}})
+			}
+		}
+		// every argument position of every tag given a tainted context value: whatever the tag does
+		// with it (most refuse at compile time), it does not write it raw
+		{
+			var uses []string
+			for _, u := range c03TagUse {
+				uses = append(uses, strings.ReplaceAll(u, "FILE", "inc.tpl"))
+			}
+			uses = append(uses, "{% now \"2006\" %}", "{% lorem 2 w %}", "{% widthratio 1 2 3 as wr %}{{ wr }}", "{% cycle \"a\" \"b\" as cc %}{{ cc }}", "{% templatetag openblock %}", "{% ssi \"inc.tpl\" parsed %}",
+				"{% include \"inc.tpl\" with a=1 %}", "{% firstof 1 \"x\" %}", "{% ifequal 1 1 %}{{ 1 }}{% endifequal %}", "{% with a=1 %}{{ a }}{% endwith %}", "{% set a = 1 %}{{ a }}", "{% for q in \"ab\" %}{{ q }}{% endfor %}")
+			sort.Strings(uses)
+			g := newProgGen(rg.fork(13))
+			g.taint = c02Marker
+			w := &world{files: []map[string]string{{"inc.tpl": "I{{ a }}", "lib.tpl": "{% macro mm(a) export %}{{ a }}{% endmacro %}"}}}
+			for _, u := range uses {
+				end := strings.Index(u, "%}")
+				if !strings.HasPrefix(u, "{%") || end < 0 {
+					continue
+				}
+				toks := strings.Fields(u[2:end])
+				for i := 1; i < len(toks); i++ {
+					for _, repl := range []string{"s1", "s1|upper", "m.k", "lst.0"} {
+						nt := append(append(append([]string{}, toks[:i]...), repl), toks[i+1:]...)
+						src := "{% " + strings.Join(nt, " ") + " " + u[end:]
+						emit(caseT{"render", append(w.args(src, g.context(0)), hexList([]string{"verifprobe"}), hexList([]string{"verifprobetag"}))})
+					}
+				}
 			}
 		}
 		// every way an application configures a set or a template through the public API before it
